@@ -1,5 +1,8 @@
 """C08 — type size, alignment and field offsets agree wherever they are computed.
 
+spec/layout/LayoutImpl.tla layer B (thorough, report only): the mechanism behind (a) - go/types sizes with one-word funcs plus the
+                         missing words added afterwards - checked against layer A per profile (exact on 64-bit and on 32-bit
+                         with 4-byte aligned scalars; TLC finds the counterexample for 8-byte aligned scalars and for aliases)
 spec/layout/Layout.tla   layer A: Size / Align / Offsets (and map slot / bucket sizes) as recursive operators over type terms
                          for a target profile; TLC enumerates the type terms step by step and prints each with its layout
                          under every profile of a small family (64-bit, 32-bit with 4- or 8-byte aligned 64-bit scalars,
@@ -227,17 +230,20 @@ def judge(arch, rec, o):
         c = lay(o["c"])
         if [c[0], c[1], o["cd"][0], o["cd"][1]] != list(o["ct"]):
             probs.append(("desc!=table", "descriptor constants (size, align, fieldalign, ptrbytes) %s differ from the abi tables %s" % ([c[0], c[1]] + list(o["cd"]), o["ct"])))
-    if arch == HOST and not probs:
+    if arch == HOST:
         want = lay(rec["L"][0])
         for nm in "abc":
             got = lay(o[nm])
             if got != want:
                 probs.append(("spec(%s)" % nm, "%s = %s but Layout(amd64) = %s" % ({"a": "compile-time", "b": "code generation", "c": "descriptor"}[nm], got, want)))
-    elif arch == HOST:
-        want = lay(rec["L"][0])
-        wrong = [nm for nm in "abc" if lay(o[nm]) != want]
-        probs = [(t, d + "; Layout(amd64) = %s" % (want,)) for t, d in probs]
     return probs
+
+
+def key_tags(probs):
+    """the disagreements name the case; on the host 'spec(x)' (x differs from Layout(amd64)) only when the three agree"""
+    tags = sorted(set(t for t, _ in probs))
+    dis = [t for t in tags if not t.startswith("spec(")]
+    return "+".join(dis or tags)
 
 
 def find_roots(arch, recs, obs, index):
@@ -432,7 +438,9 @@ def run_e2e_batch(chk, recs, idxs, label):
     mod = os.path.join(rd, "e2e-" + label)
     C.write_module(mod, {"main.go": e2e_program(recs, idxs)}, modname="c08e2e" + label)
     exe = os.path.join(mod, "prog.exe")
+    t0 = time.time()
     ok, out = C.llgo_build(mod, exe, rundir=rd, timeout=1500)
+    C.log("end-to-end program %s: %d terms built by llgo in %.0fs" % (label, len(idxs), time.time() - t0))
     if not ok:
         raise C.Undecided("llgo cannot build the layout program %s:\n%s" % (label, out[-3000:]))
     st, so, _ = C.run_exe(exe, timeout=120, merge=True)
@@ -509,7 +517,7 @@ def check(chk):
              "zz_verif_c08_sizes_test.go": sizes_file()}
     pool = ThreadPoolExecutor(max_workers=4)
     f_bin = pool.submit(C.gotest_compile_injected, "ssa", files, rd, "", True, 1500)
-    f_llgo = pool.submit(C.llgo_binary)
+    f_llgo = pool.submit(C.llgo_binary) if os.environ.get("VERIF_C08_E2E") != "0" else None
     cfg = "layout_thorough.cfg" if thorough else "layout_quick.cfg"
     res = C.tlc(SPEC, "Layout", cfg, rd, timeout=2400, parse_json=False, tlc_seed=C.seed())
     if not res.ok:
@@ -526,13 +534,17 @@ def check(chk):
         for i, d in enumerate(recs):
             f.write(json.dumps({"i": i, "t": d["t"]}) + "\n")
     testbin = f_bin.result()
+    C.log("injected test binary ready after %.0fs" % (time.time() - chk.t0))
     t0 = time.time()
     # the end-to-end program is built while the in-process harness runs
     n_e2e = 1500 if thorough else 60
     leaves = [i for i, d in enumerate(recs) if d["ph"] == 1]
     pick = set(leaves) | set(rng.sample(range(len(recs)), min(n_e2e, len(recs))))
     e2e_idx = closure(recs, index, pick)
-    f_llgo.result()
+    if os.environ.get("VERIF_C08_E2E") != "0":
+        f_llgo.result()
+    if os.environ.get("VERIF_C08_E2E") == "0":      # development aid (mutation testing of the in-process part only)
+        e2e_idx = []
     batches = [e2e_idx[k:k + 400] for k in range(0, len(e2e_idx), 400)]
     f_e2e = [pool.submit(run_e2e_batch, chk, recs, b, "b%d" % bi) for bi, b in enumerate(batches)]
     results = run_targets(chk, testbin, cases, TARGETS)
@@ -545,11 +557,16 @@ def check(chk):
     wrong = json.loads(json.dumps(recs[ki]))
     wrong["L"][0][0] += 1
     o64 = results[HOST][1][ki]
-    if judge(HOST, recs[ki], o64) or not any(t.startswith("spec(") for t, _ in judge(HOST, wrong, o64)):
-        raise C.Undecided("negative control: a wrong expected size for struct{int8; int64} was not flagged (or the right one was)")
+    tags = lambda probs: set(t for t, _ in probs)
+    if not (tags(judge(HOST, wrong, o64)) - tags(judge(HOST, recs[ki], o64))) & {"spec(a)", "spec(b)", "spec(c)"}:
+        raise C.Undecided("negative control: a wrong expected size for struct{int8; int64} was not flagged")
     oarm = json.loads(json.dumps(results["arm64"][1][ki]))
+    oarm["b"], oarm["c"] = json.loads(json.dumps(oarm["a"])), json.loads(json.dumps(oarm["a"]))
+    oarm["cd"][0] = oarm["a"]["a"]
+    oarm.pop("ct", None)
+    same = tags(judge("arm64", recs[ki], oarm))
     oarm["b"]["o"][-1] += 1
-    if not any(t.startswith("offsets(") for t, _ in judge("arm64", recs[ki], oarm)):
+    if same or "offsets(a=c)" not in tags(judge("arm64", recs[ki], oarm)):
         raise C.Undecided("negative control: a corrupted field offset was not flagged as a disagreement")
 
     # self-validation of the profiles against the reference toolchain's own sizes (func-free terms)
@@ -563,7 +580,9 @@ def check(chk):
                         PROFILES[pi], arch, show(recs[i]["t"]), lay(recs[i]["L"][pi]), lay(o["ref"])))
     # ... and against the host C compiler for the C-compatible terms
     cc = [i for i, d in enumerate(recs) if d["cc"]]
+    t0 = time.time()
     gcc = run_gcc(chk, recs, cc)
+    C.log("gcc: %d C-compatible terms in %.0fs" % (len(cc), time.time() - t0))
     for i in cc:
         want = lay(recs[i]["L"][0])
         if gcc.get(i) != want:
@@ -586,7 +605,7 @@ def check(chk):
         fits[arch]["minimal"] = len(roots)
         groups = {}
         for i, probs in roots:
-            tags = "+".join(sorted(set(t for t, _ in probs if t != "error")) or ["error"])
+            tags = key_tags(probs)
             key = "layout:%s:%s:%s" % (arch, root_class(recs[i]["t"]), tags)
             groups.setdefault(key, []).append((i, probs))
         for key, items in sorted(groups.items()):
@@ -606,6 +625,17 @@ def check(chk):
                         chk.reject("layout:%s:%s:cabi(%s)" % (arch, root_class(recs[i]["t"]), nm),
                                    "%s: llgo %s, gcc %s" % (show(recs[i]["t"]), lay(o[nm]), gcc[i]), {"term": recs[i]["t"], "observed": o, "gcc": gcc[i]})
 
+    # ---------------- layer B (report only): the "go/types size + one word per func value afterwards" mechanism
+    if thorough:
+        layer_b = {}
+        for cfgname, expect in (("impl_p64", True), ("impl_p32a4", True), ("impl_p64_noalias", False), ("impl_p32a8", False)):
+            rb = C.tlc(SPEC, "LayoutImpl", cfgname + ".cfg", rd, timeout=1200, parse_json=False, workers=4)
+            chk.add_tlc(rb, "LayoutImpl/" + cfgname)
+            cex = re.findall(r"/\\ t = (.*)", rb.out)
+            layer_b[cfgname] = {"mechanism_matches_layout": rb.ok, "as_expected": rb.ok == expect,
+                                "counterexample": cex[-1] if (cex and not rb.ok) else None}
+        chk.cov["layer_B_LayoutImpl"] = layer_b
+
     # ---------------- end to end on the host
     e2e_obs = {}
     for f in f_e2e:
@@ -618,7 +648,7 @@ def check(chk):
         if any(k in bad for k in kids if k is not None):
             e2e_explained += 1
             continue
-        key = "e2e:%s:%s:%s" % (HOST, root_class(recs[i]["t"]), "+".join(sorted(set(t for t, _ in probs))))
+        key = "e2e:%s:%s:%s" % (HOST, root_class(recs[i]["t"]), key_tags(probs))
         groups.setdefault(key, []).append((i, probs))
     for key, items in sorted(groups.items()):
         i, probs = items[0]
